@@ -1416,6 +1416,20 @@ def generate(rng, tier):
         for cname in ("Leaf", "PlainSub"):
             for a, b, which in one_diff_pairs(fam, cname, blank_alts=False, full=False, max_blanks=1):
                 cases.append({"kind": "eq", "fam": fid, "a": a, "b": b, "gen": "hier-one-diff", "diff": which})
+        # the same attribute values held by instances of DIFFERENT classes of the hierarchy (a class and
+        # the plain / spec class below it): never equal, in either order; with a same-class twin: a triple
+        sub_names = {a["name"] for a in attrs_of(fam, "Sub")}
+        base_names = {a["name"] for a in fam["attrs"]}
+        for st in [s for s in pool if s["cls"] == "Sub"][:3]:
+            for other in ("PlainSub", "Leaf", "Base", "Plain"):
+                keep = sub_names if other in ("PlainSub", "Leaf") else base_names
+                tw = {"cls": other, "attrs": {n: json.loads(json.dumps(v)) for n, v in st["attrs"].items() if n in keep}}
+                cases.append({"kind": "eq", "fam": fid, "a": st, "b": tw, "gen": "hier-cross-class"})
+                if other in ("PlainSub", "Leaf"):
+                    cases.append({"kind": "tri", "fam": fid, "a": tw, "b": st, "c": json.loads(json.dumps(tw)), "gen": "hier-cross-class"})
+        for st in [s for s in pool if s["cls"] == "PlainSub"][:2]:
+            tw = {"cls": "Leaf", "attrs": json.loads(json.dumps(st["attrs"]))}
+            cases.append({"kind": "eq", "fam": fid, "a": st, "b": tw, "gen": "hier-cross-class"})
         for cname in ("Sub", "Leaf", "PlainSub", "Plain"):
             for st in position_states(fam, cname):
                 cases.append({"kind": "rb", "fam": fid, "a": st, "gen": "hier-rebuild"})
@@ -1602,7 +1616,7 @@ def main(tier, replay=None):
         sig0 = (c["kind"], code, c.get("gen"), bf)
         if sig0 in reported:
             continue
-        if len(reported) >= 10:
+        if len(reported) >= 6:
             break
         reported.add(sig0)
         fam, small = shrink(fams[c["fam"]], c, code, bf)
